@@ -74,7 +74,9 @@ def rules(model: Model, tier: str) -> List[RuleResult]:
     from ..rules import c01_layout as _c01l
     LSN = RuleResult(PROP, "LS-N", "inner linear solve: the normal-equation fallback applies one adjoint map to operator and right-hand side (A^H A x = A^H b)", min_instances=3)
     _c01l.check_normal_equations(model, LSN)
-    return [R1, R2, R3, R4, R5, R6, J, U, *_hy, RJ, RB, *_sub, LSN]
+    from .c01 import krylov_loop_rules as _klr
+    _ls = _klr(model, PROP)
+    return [R1, R2, R3, R4, R5, R6, J, U, *_hy, RJ, RB, *_sub, LSN, *_ls]
 
 
 def _saved_output_names(fc) -> set:
